@@ -328,20 +328,20 @@ def r16d(ck, prog, functions=None, rule="R16d", all_exits=True):
 def run(ck, progs):
     describe(ck)
     for cfg, prog in progs.items():
-        n = r16a(ck, prog)
-        r16b(ck, prog)
+        n = ck.attempt(r16a, ck, prog)
+        ck.attempt(r16b, ck, prog)
         before = len(ck.instances)
-        c05.r05c(ck, prog)
+        ck.attempt(c05.r05c, ck, prog)
         for i in ck.instances[before:]:
             i["rule"] = "R16c"
         for v in ck.violations:
             if v["rule"] == "R05c":
                 v["rule"] = "R16c"
                 v["key"] = v["key"].replace("R05c", "R16c")
-        n = r16d(ck, prog)
+        n = ck.attempt(r16d, ck, prog)
         ck.floor("R16d", n, 12, "acquisitions in API-owned functions")
         cg = CallGraph(prog)
-        c03.r03d(ck, prog, cg, roots=tuple(sorted(c05.api_functions(prog))), rule="R16e")
+        ck.attempt(c03.r03d, ck, prog, cg, roots=tuple(sorted(c05.api_functions(prog))), rule="R16e")
     from ..controls import control_program
     from ..report import Check
     cp = control_program(ck.work, "c16.c")
